@@ -167,4 +167,9 @@ func init() {
 
 	mut("C13", "disconnecting a subscriber waits for its handler under the observer mutex", "x/go/observe/observe.go",
 		"		a.mu.Lock()\n		delete(a.handlers, h)\n		a.mu.Unlock()\n", "		a.mu.Lock()\n		defer a.mu.Unlock()\n		delete(a.handlers, h)\n", "C13.R5.nowait")
+	// ---------------- E14 (error flow)
+	mut("C06", "a failed lease allocation is ignored for deletes", "aspen/internal/kv/tx.go",
+		"	op, err = b.lease.allocate(ctx, op)\n	if err != nil {", "	op, err = b.lease.allocate(ctx, op)\n	if err != nil && op.Variant != change.VariantDelete {", "C06.ERR")
+	mut("C11", "Arbitrate starts a juror on an invalid configuration when no candidates are configured", "aspen/internal/cluster/pledge/pledge.go",
+		"func Arbitrate(cfgs ...Config) error {\n	cfg, err := config.New(DefaultConfig, cfgs...)\n	if err != nil {", "func Arbitrate(cfgs ...Config) error {\n	cfg, err := config.New(DefaultConfig, cfgs...)\n	if err != nil && cfg.Candidates != nil {", "C11.ERR")
 }
